@@ -134,8 +134,13 @@ class Program:
             self.by_key[key] = name
 
     def _index(self):
+        self.lazy_statics = {}    # static type name -> return type text of its Deref impl
         for name in self.module.names():
             r = self.module.raw[name]
+            if r[0] == 'fn' and 'lazy_static' in name and name.split('#dup')[0].endswith('>::deref') and r[1]:
+                self.lazy_statics[r[1].split(': &', 1)[1].strip()] = r[2]
+                continue
+            if '#dup' in name: continue
             if r[0] == 'fn' and r[1]:
                 a1 = mirmod.split_top(r[1])[0]
                 m = re.search(r'\{closure@([^}]+)\}', a1.split(': ', 1)[1]) if '_1: ' in a1 else None
@@ -197,8 +202,14 @@ class Program:
     def lookup(self, name):
         f = self.module.fn(name)
         if f is not None: return f
-        d = self.by_key.get(strip_generics(name))
+        key = strip_generics(name)
+        d = self.by_key.get(key)
         if d: return self.module.fn(d)
+        # harness-side lookups may give a longer path than the (trimmed) definition name
+        segs = key.split('::')
+        for k in range(1, len(segs)):
+            d = self.by_key.get('::'.join(segs[k:]))
+            if d: return self.module.fn(d)
         return None
 
     def closure_fn(self, span):
